@@ -451,10 +451,14 @@ memtype_valid(const RegP *p, const RPFrame *f)
 /* The channel's source as regp_recv() reads it: The octets the channel
  * delivered in the current call are counted. Neither the sink nor the frame
  * block can tell that - a length prefix never gets there, and the sink may
- * have failed to get a block. */
+ * have failed to get a block. Whether the channel itself answered its last
+ * request with an error is kept as well: A decoder's result code does not
+ * tell - a source may answer with the very value the decoder uses for a
+ * verdict of its own. */
 typedef struct {
     Source *source;
     size_t octets;
+    bool failed;
 } RecvTap;
 
 static ssize_t
@@ -462,6 +466,22 @@ recv_tap_run(void *driver, void *buf, size_t n)
 {
     RecvTap *tap = driver;
     const ssize_t rc = source_get_chunk_atmost(tap->source, buf, n);
+    tap->failed = (rc < 0);
+    if (rc > 0) {
+        tap->octets += (size_t)rc;
+    }
+    return rc;
+}
+
+/* The same for a reader that takes the channel octet by octet (the SLIP
+ * decoder): One request of the reader is one request to the channel, so what
+ * the channel answers - -EINTR, say - reaches the reader as it is. */
+static int
+recv_tap_octet(void *driver, void *data)
+{
+    RecvTap *tap = driver;
+    const int rc = source_get_octet(tap->source, data);
+    tap->failed = (rc < 0);
     if (rc > 0) {
         tap->octets += (size_t)rc;
     }
@@ -894,7 +914,8 @@ regp_recv(RegP *p, RPMaybeFrame *mf)
              * and nothing tells where it ends. */
             return -EPIPE;
         }
-        RecvTap tap = { .source = &p->ep.source, .octets = 0u };
+        RecvTap tap = { .source = &p->ep.source, .octets = 0u,
+                        .failed = false };
         Source channel = CHUNK_SOURCE_INIT(recv_tap_run, &tap);
         const ssize_t rc = lenp_decode_source_to_sink(&channel, &recv);
         if (rc < 0) {
@@ -916,13 +937,20 @@ regp_recv(RegP *p, RPMaybeFrame *mf)
     case RP_EP_SERIAL:
         /* FALLTHROUGH */
     default: {
-        const int rc = rfc1055_decode(&p->ep.slip, &p->ep.source, &recv);
+        RecvTap tap = { .source = &p->ep.source, .octets = 0u,
+                        .failed = false };
+        Source channel = OCTET_SOURCE_INIT(recv_tap_octet, &tap);
+        const int rc = rfc1055_decode(&p->ep.slip, &channel, &recv);
         if (rc < 0) {
-            if (rc != -EILSEQ && (cs.buffer.data != NULL || fb.used > 0u)) {
+            if ((rc != -EILSEQ || tap.failed)
+                && (cs.buffer.data != NULL || fb.used > 0u))
+            {
                 /* Part of a frame was received and is dropped here. What the
                  * channel delivers next is the rest of that frame, not a
                  * frame: The decoder has to skip it. (After an invalid escape
-                 * sequence it has arranged for that itself.) */
+                 * sequence it has arranged for that itself - but -EILSEQ is
+                 * that verdict only if the channel did not fail: A source may
+                 * answer -EILSEQ on its own account.) */
                 p->ep.slip.state = RFC1055_SEARCH_FOR_END;
             }
             if (cs.buffer.data != NULL) {
